@@ -14,6 +14,20 @@ class Propagate(Exception):
     pass
 
 
+class PropagateBase(BaseException):
+    pass
+
+
+# the exception by which a block is left ("via" on an errstate node; the model does not care which one it is:
+# the previous profile must be restored whatever leaves the block)
+EXITS = ["Exception", "TableException", "KeyboardInterrupt", "SystemExit", "GeneratorExit", "BaseException"]
+
+
+def exit_exc(E, via):
+    return {"Exception": Propagate, "TableException": E.TableException, "KeyboardInterrupt": KeyboardInterrupt,
+            "SystemExit": SystemExit, "GeneratorExit": GeneratorExit, "BaseException": PropagateBase}[via]()
+
+
 class FakeItem:
     """an object on which exactly the tests of `trig` fire (duck-typed like a Table)"""
 
@@ -95,6 +109,7 @@ class Env:
         self.kinds = sorted(self.default_state)
         self.default_calls = {k: E.geterrcall(k) for k in self.kinds}
         self.log = []
+        self.saved = {}
         self.cbs = {}
         for i in (1, 2, 3):
             self.cbs[i] = self._mk(i)
@@ -110,6 +125,7 @@ class Env:
         for k, f in self.default_calls.items():
             self.E.seterrcall(k, f)
         self.log.clear()
+        self.saved.clear()
 
     def snap(self):
         return [[k, v] for k, v in sorted(self.E.geterr().items())]
@@ -137,6 +153,8 @@ class Env:
                     call()
                 except self.E.TableException as e:
                     ev = {"ev": "raised", "kind": msgs.get(str(e), "?" + str(e))}
+                except Exception as e:      # anything but the table error: the reaction is not the configured one
+                    ev = {"ev": "raised", "kind": "?" + type(e).__name__}
             if ev["ev"] == "quiet":
                 ws = [x for x in w if str(x.message) in msgs]
                 out = buf.getvalue()
@@ -169,7 +187,16 @@ class Env:
         if op == "seterrcall":
             st = self.snap()
             try:
-                E.seterrcall(prog["kind"], self.cbs[prog["cb"]])
+                k = prog["kind"]
+                if prog["cb"] == 0:
+                    # "put back what was there": the value an earlier seterrcall returned for this kind (the
+                    # save/restore idiom); without an earlier call, save and restore in one go
+                    if k not in self.saved:
+                        self.saved[k] = E.seterrcall(k, self.cbs[1])
+                    E.seterrcall(k, self.saved[k])
+                else:
+                    old = E.seterrcall(k, self.cbs[prog["cb"]])
+                    self.saved.setdefault(k, old)
                 refused = False
             except KeyError:
                 refused = True
@@ -187,6 +214,7 @@ class Env:
         if op == "errstate":
             before = self.snap()
             entered = None
+            exc = exit_exc(E, prog.get("via", "Exception"))
             try:
                 with E.errstate(**dict(prog["kw"])):
                     inside = self.snap()
@@ -194,11 +222,12 @@ class Env:
                     ob = self.run(prog["body"])
                     entered["body"] = ob
                     if out_of(ob) != "normal":
-                        raise Propagate()
-            except Propagate:
-                pass
+                        raise exc
             except KeyError:
                 if entered is not None:
+                    raise
+            except BaseException as e:
+                if e is not exc:
                     raise
             return {"op": "errstate", "before": before, "entered": entered, "after": self.snap()}
         raise ValueError(op)
@@ -241,7 +270,7 @@ def gen_prog(rng, kinds, depth):
         if d < 0.35:
             return {"op": "seterr", "kw": gen_kw(rng, kinds)}
         if d < 0.45:
-            return {"op": "seterrcall", "kind": rng.choice(kinds + ["bogus"]), "cb": rng.choice([1, 2, 3])}
+            return {"op": "seterrcall", "kind": rng.choice(kinds + ["bogus"]), "cb": rng.choice([0, 1, 2, 3])}
         if d < 0.92:
             t = rng.random()
             if t < 0.6:
@@ -254,7 +283,7 @@ def gen_prog(rng, kinds, depth):
         return {"op": "raise"}
     if c < 0.7:
         return {"op": "seq", "a": gen_prog(rng, kinds, depth - 1), "b": gen_prog(rng, kinds, depth - 1)}
-    return {"op": "errstate", "kw": gen_kw(rng, kinds), "body": gen_prog(rng, kinds, depth - 1)}
+    return {"op": "errstate", "kw": gen_kw(rng, kinds), "body": gen_prog(rng, kinds, depth - 1), "via": rng.choice(EXITS)}
 
 
 def prog_size(p):
@@ -339,8 +368,23 @@ def run(ctx):
                  {"op": "errstate", "kw": [["all", "print"]], "body": {"op": "raise"}},
                  {"op": "seq", "a": {"op": "seterr", "kw": [["sampdup", "ignore"]]}, "b": {"op": "raise"}}):
         for kw in ([["empty", "raise"]], [["all", "warn"]], [["obsdup", "raise"], ["empty", "print"]]):
-            check_prog(ctx, env, {"op": "seq", "a": {"op": "errstate", "kw": kw, "body": body},
-                                  "b": {"op": "check", "trig": ["empty"]}}, ("exceptional-exit",))
+            for via in EXITS:
+                check_prog(ctx, env, {"op": "seq", "a": {"op": "errstate", "kw": kw, "body": body, "via": via},
+                                      "b": {"op": "check", "trig": ["empty"]}}, ("exceptional-exit", "via:" + via))
+                # nested: the inner block is left by `via`, the outer one by an ordinary exception
+                check_prog(ctx, env, {"op": "seq",
+                                      "a": {"op": "errstate", "kw": [["sampdup", "print"]], "via": "Exception",
+                                            "body": {"op": "errstate", "kw": kw, "body": body, "via": via}},
+                                      "b": {"op": "check", "trig": ["sampdup"]}}, ("exceptional-exit", "nested", "via:" + via))
+    # the save/restore idiom of seterrcall: what an earlier call returned is put back (cb 0), then the kind is triggered
+    for k in kinds:
+        for first in (1, 0):
+            steps = [{"op": "seterrcall", "kind": k, "cb": first}, {"op": "seterrcall", "kind": k, "cb": 0},
+                     {"op": "seterr", "kw": [[k, "call"]]}, {"op": "check", "trig": [k]}]
+            prog = steps[-1]
+            for st in reversed(steps[:-1]):
+                prog = {"op": "seq", "a": st, "b": prog}
+            check_prog(ctx, env, prog, ("callback-save-restore",))
     # real tables: exactly one kind fires; reactions observed through errcheck and through the constructor
     rt = real_tables(env)
     for k, (mk, t, fired) in rt.items():
@@ -493,7 +537,19 @@ def run(ctx):
                lambda: base().sort_order([], axis="sample"))
         yield ("collapse-of-empty-table", {"nrows": 0, "ncols": 0, "obs_ids": [], "samp_ids": [], "omd_len": None, "smd_len": None},
                lambda: Table(np.zeros((0, 0)), [], []).collapse(lambda i, m: "g", axis="sample"))
-    for label, facts, call in site_cases():
+    def dup_label_cases():
+        for axis in ("sample", "observation"):
+            lab = {"x": 1, "y": "1", "z": 2} if axis == "sample" else {"a": 1, "b": "1", "c": 2}
+            ids3 = ["1", "1", "2"]
+            if axis == "sample":
+                facts = {"nrows": 2, "ncols": 3, "obs_ids": ["a", "b"], "samp_ids": ids3, "omd_len": None, "smd_len": 3}
+                mk = lambda: Table(np.arange(6.0).reshape(2, 3) + 1, ["a", "b"], ["x", "y", "z"])
+            else:
+                facts = {"nrows": 3, "ncols": 2, "obs_ids": ids3, "samp_ids": ["x", "y"], "omd_len": 3, "smd_len": None}
+                mk = lambda: Table(np.arange(6.0).reshape(3, 2) + 1, ["a", "b", "c"], ["x", "y"])
+            yield ("collapse-labels-of-equal-text-" + axis, facts,
+                   (lambda mk=mk, lab=lab, axis=axis: mk().collapse(lambda i, m: lab[i], axis=axis, norm=False)))
+    for label, facts, call in list(site_cases()) + list(dup_label_cases()):
         trig = ctx.driver.ask({"facts": facts})["firing"]
         for r in REACTIONS:
             env.reset()
@@ -501,7 +557,7 @@ def run(ctx):
             kw = [["all", r]]
             prog = {"op": "seq", "a": {"op": "seterr", "kw": kw}, "b": {"op": "check", "trig": trig}}
             holder = {}
-            if label.startswith("collapse"):
+            if label.startswith("collapse-of-empty"):
                 with env.E.errstate(all="ignore"):
                     empty_t = Table(np.zeros((0, 0)), [], [])
                 call = (lambda et=empty_t: et.collapse(lambda i, m: "g", axis="sample"))
